@@ -11,7 +11,7 @@ from decimal import Decimal
 
 from . import c02
 from .c02 import C02, LAXABLE, Undefined, dec2, digit_counts, enc2, sat
-from .pyval import decode, encode
+from .c02 import decode, encode      # the extended codec (deques, dicts, bytes)
 
 LAX_NAMES = ["lax_" + n for n in LAXABLE]
 
@@ -1433,7 +1433,7 @@ class C03(C02):
                 return f"{name}({v!r}, {b!r}) = {r!r} is not a fixed point: second application gives {r2!r}"
             # (de-duplication is about `==` between the items, whatever they are: the strict form is checked on every
             # sequence; the numeric constraints only on the exact domains)
-            if (name == "lax_unique_items" and isinstance(r, (list, tuple))) or \
+            if (name == "lax_unique_items" and isinstance(r, (list, tuple, c02._deque))) or \
                     (exact_domain(v) and exact_domain(r) and (exact_domain(b) or isinstance(b, (list, tuple, set)))):
                 base = name[4:]
                 try:
